@@ -229,6 +229,18 @@ func runC01(r *Run) {
 	r.Rule("C01.R8")
 	c01Who(r)
 
+	// "carries the validated chain (root included)": the chain handed on is the verified path that
+	// was compared, certificate by certificate, with the submission (rule sets of C02)
+	r.Shared("C01.R11", func() {
+		if vc := r.Fn("trillian/ctfe.ValidateChain"); vc != nil {
+			c02ValidateChain(r, vc)
+		}
+		r.Rule("C02.R3")
+		if fn := r.Fn("trillian/ctfe.chainsEquivalent"); fn != nil {
+			c02ChainsEquivalent(r, fn)
+		}
+	})
+
 	// the de-poisoned TBSCertificate for the dedicated-pre-issuer case (rules of C03)
 	r.Shared("C01.R9", func() {
 		r.Rule("C03.R3")
